@@ -616,7 +616,7 @@ package ro
 // ---------------------------------------------------------------------------
 
 //@ operator RetryWithConfig
-//@   props C15 C09
+//@   props C15 C09 C14
 //@   alias attempt=source.SubscribeWithContext()
 //@   on next(ctx, value) when opts.ResetOnSuccess : emits Next(ctx, value) ; post retries' == 0
 //@   on next(ctx, value) when !opts.ResetOnSuccess : emits Next(ctx, value) ; post retries' == retries
